@@ -32,6 +32,7 @@ wq_ctx = dict(cls='wq_receiver', members=['val_'], methods=[],
                   (r'unifex::set_error\(std::move\(receiver_\), std::current_exception\(\)\)', 'EV_set_error_exception(self)'),
                   (r'unifex::set_error\(std::move\(receiver_\), std::forward<E>\(e\)\)', 'EV_set_error(self)'),
                   (r'unifex::set_done\(std::move\(receiver_\)\)', 'EV_set_done(self)'),
+                  (r'unifex::set_value\(std::move\(receiver_\)\)', 'EV_set_value(self)'),
                   (r'\*r\.val_', '*r->val_'),
               ])
 wqop_ctx = dict(cls='wq_op', members=[], methods=[], pre=[(r'unifex::start\(innerOp_\)', 'EV_start_inner(self)')])
